@@ -95,8 +95,9 @@ def cases(draw):
                                        max_size=3, unique_by=lambda r: r[0])),
             'junk': draw(st.dictionaries(
                 st.sampled_from(['ZZ_UNRELATED', 'A_VAR', 'COLUMNS',
-                                 'TERM', 'XDG_FOO']),
-                st.sampled_from(['1', 'x y', 'é']), max_size=3))}
+                                 'TERM', 'XDG_FOO', 'CLICOLOR',
+                                 'CLICOLOR_FORCE', 'NO_COLOR']),
+                st.sampled_from(['1', 'x y', 'é', '0']), max_size=3))}
 
 
 def render(case, src):
@@ -288,6 +289,40 @@ def prop_determinism(rec):
                                     .format(what, r.rc,
                                             r.err.strip()[-600:]), case)
                 results.append((what, collect(bld)))
+            # the directories named through a symbolic link: the relative and
+            # the absolute spelling of the same arguments give the same files
+            pair = []
+            for what, cwd, a_src, a_bld in (
+                    ('absolute-through-link', '/', lsrc, lbld),
+                    ('relative-through-link', tmp, 'link/top/src',
+                     'link/top/bld')):
+                if os.path.exists(bld):
+                    os.rename(bld, bld + '.' + what)
+                os.makedirs(bld)
+                env = sandbox.base_env(os.path.join(tmp, 'home'),
+                                       extra={'PKG_CONFIG_PATH': depdir})
+                env['PYTHONHASHSEED'] = str(seeds[0])
+                r = sandbox.run([bfg, 'configure-into', a_src, a_bld] + opts,
+                                cwd, env)
+                if r.rc != 0:
+                    raise Violation('det/configure-failed', '{}: exit {}: {}'
+                                    .format(what, r.rc, r.err.strip()[-600:]),
+                                    case)
+                pair.append((what, collect(bld)))
+            for fn in pair[0][1][0]:
+                if pair[0][1][0][fn] != pair[1][1][0].get(fn):
+                    import difflib
+                    d = '\n'.join(list(difflib.unified_diff(
+                        pair[0][1][0][fn].decode('utf-8', 'replace')
+                        .splitlines(),
+                        (pair[1][1][0].get(fn) or b'').decode(
+                            'utf-8', 'replace').splitlines(),
+                        pair[0][0], pair[1][0], lineterm='', n=0))[:10])
+                    raise Violation('det/' + fn.split('/')[0] + '-differs',
+                                    '{} differs between the absolute and the '
+                                    'relative spelling of directories reached '
+                                    'through a symbolic link:\n{}'.format(
+                                        fn, d[:1200]), case)
             # re-configuring a used build directory with other options gives
             # what a fresh build directory gets with those options
             other = [o if not o.startswith('--prefix=') else
